@@ -337,7 +337,17 @@ def run_check(
         families = list(families)
         rnd.shuffle(families)
 
+    # every family runs under a wall-clock budget (normal families take seconds): a change to the
+    # library that makes the exploration explode or crawl ends as "not exhausted" (exit 3 unless a
+    # violation was found before), never as a check that does not return
+    budget = float(os.environ.get("VERIF_FAMILY_BUDGET", "0") or 0) or (300.0 if tier == "quick" else 3000.0)
+    for f in families:
+        if f.time_budget is None:
+            f.time_budget = budget
     total, per_family, errors = run_families(families, workers)
+    for name, pf in per_family.items():
+        if not pf["exhausted"]:
+            errors.append(f"family {name}: decision tree not exhausted within its budget of {budget:.0f} s ({pf['paths']} paths explored): inconclusive")
 
     obligations: list[Obligation] = []
     for runner in spec.obligation_runners:
@@ -383,6 +393,11 @@ def run_check(
         if o.status == "violated":
             sig_count[o.signature or o.name] += 1
 
+    if os.environ.get("VCHECK_DUMP_SIGS"):
+        # development aid: every signature met, with its number of paths and whether a known finding matches
+        for s_ in sorted(sig_count):
+            k_ = match_known(cid, s_, known)
+            print(f"SIG {sig_count[s_]:7d} {'known' if k_ is not None else 'NEW  '} {s_}")
     confirmed: dict[str, str] = {}
     unreproduced: list[str] = []
     skipped: list[str] = []
